@@ -38,6 +38,12 @@ def main(tier):
                      "verify_ok": x.get("verify", {}).get("ok", False), "panic": bool(x["client"]["panic"] or x.get("verify", {}).get("panic", "")), "setupOK": x["setupOK"]}
             run.violation(facts, {"line": x})
         run.extra["rejected_lines"] = len(bad)
+        # ---- the acceptance predicate against MIT Kerberos' client on the same perturbations of the simulated KDC's replies (validates KDCReplyCheck)
+        import mitcross
+        mr = mitcross.mit_reply_cross(wd)
+        run.extra["kdcreplycheck_vs_mit_client"] = {k: v for k, v in mr.items() if k != "first"}
+        if mr.get("disagreements"):
+            raise vlib.Inconclusive("KDCReplyCheck and MIT's client disagree on %d perturbed replies: %s" % (mr["disagreements"], mr["first"]))
         # ---- the password-change exchange (KPasswd.tla), bound end to end: replies of a service the client can authenticate, and an attacker's
         import sysk5
         info, slines, problem = sysk5.run_kpasswd(run, quick=not run.thorough)
